@@ -310,29 +310,48 @@ Proof. exact @build_fields. Qed.
 
 (* the run offers the first max_size seeds to the population of the configured context before anything else ... *)
 Theorem C08_config_seeds_offered_first :
-  forall (ind : Type) (calls pre_calls post_calls : list (setter ind)) (seeds : list ind) (max_init_size : option nat) (c : config ind),
+  forall (ind : Type) (pre : Z -> context ind -> context ind)
+         (calls pre_calls post_calls : list (setter ind)) (seeds : list ind) (max_init_size : option nat) (c : config ind),
   calls = pre_calls ++ WithInitSolutions seeds max_init_size :: post_calls ->
   (forall s, In s post_calls -> is_init_solutions s = false) ->
   build (apply_all calls default_builder) = inl c ->
   seeds_offered c = firstn (i_max (b_initial (apply_all calls default_builder))) seeds /\
-  forall clock created gens, exists rest, evolve_ops c clock created gens = map OAdd (seeds_offered c) ++ rest.
+  forall clock created gens, exists rest, evolve_ops pre c clock created gens = map OAdd (seeds_offered c) ++ rest.
 Proof. exact @builder_seeds_offered_first. Qed.
 
-(* ... the initial stage never offers more than max_size individuals, operator slot idx < operators.len() goes to operator idx, and with
-   only a generation limit > 0 and a non-negative quota the stage fills the population up to max_size *)
+(* ... the initial stage never offers more than max_size individuals, operator slot idx < operators.len() goes to operator idx; with
+   only a generation limit > 0 and a non-negative quota the stage fills the population up to max_size; the quota / termination tests stop
+   it only once the population holds a solution (/repo 2c5dd99): under a generation limit of 0 nothing is created when a seed was
+   offered (or the population was non-empty), exactly one individual otherwise, and whatever the criteria, the quota and the clock an
+   empty population gets at least one operator-built individual (max_size > 0) *)
 Theorem C08_config_initial_stage_bounds :
-  forall (ind : Type) (c : config ind) (clock : list (bool * Z)) (created : list ind),
-  (length (init_offered c clock created) <= i_max (cfg_initial c))%nat /\
-  (forall k, In (Some k) (init_slots c clock) -> (k < length (i_ops (cfg_initial c)))%nat) /\
+  forall (ind : Type) (pre : Z -> context ind -> context ind) (c : config ind) (clock : list (bool * Z)) (created : list ind),
+  (length (init_offered pre c clock created) <= i_max (cfg_initial c))%nat /\
+  (forall k, In (Some k) (init_slots pre c clock) -> (k < length (i_ops (cfg_initial c)))%nat) /\
   (has_other_criteria (cfg_termination c) = false -> maxgen_terminated0 (cfg_termination c) = false -> 0 <= i_quota (cfg_initial c) ->
-   length (init_slots c clock) = (i_max (cfg_initial c) - length (seeds_offered c))%nat) /\
-  (maxgen_terminated0 (cfg_termination c) = true -> init_slots c clock = []).
+   length (init_slots pre c clock) = (i_max (cfg_initial c) - length (seeds_offered c))%nat) /\
+  (maxgen_terminated0 (cfg_termination c) = true -> has_solution pre c 0 = true -> init_slots pre c clock = []) /\
+  (maxgen_terminated0 (cfg_termination c) = true -> has_solution pre c 0 = false -> (0 < i_max (cfg_initial c))%nat ->
+   length (init_slots pre c clock) = 1%nat) /\
+  (has_solution pre c 0 = false -> (0 < i_max (cfg_initial c))%nat -> init_slots pre c clock <> []).
 Proof.
-  exact (fun ind c clock created =>
-    conj (@init_offered_length ind c clock created)
-   (conj (fun k H => @created_slots_valid ind c clock _ _ _ k H)
-   (conj (@init_slots_full ind c clock) (@init_slots_none ind c clock)))).
+  exact (fun ind pre c clock created =>
+    conj (@init_offered_length ind pre c clock created)
+   (conj (fun k H => @created_slots_valid ind pre c clock _ _ _ k H)
+   (conj (@init_slots_full ind pre c clock)
+   (conj (@init_slots_none ind pre c clock)
+   (conj (@init_slots_one ind pre c clock) (@init_slots_nonempty ind pre c clock)))))).
 Qed.
+
+(* the count `has_solution` of the model is the code's test `ranked().next().is_some()`: after the seeds and i operator-created
+   individuals were offered to the freshly constructed population of the context, the population is non-empty exactly when has_solution c i *)
+Theorem C08_config_has_solution_faithful :
+  forall (ind : Type) (cmp : ind -> ind -> comparison) (dedup : ind -> ind -> bool), total_preorder cmp ->
+  forall (pre : Z -> context ind -> context ind) (c : config ind) (xs : list ind) (p : pop ind),
+  start_state (snd (pre_process pre c)) ->
+  run cmp dedup (map OAdd (seeds_offered c ++ xs)) (snd (pre_process pre c)) = Some p ->
+  (has_solution pre c (length xs) = true <-> ranked p <> []).
+Proof. exact @has_solution_faithful. Qed.
 
 (* THE LAST CLAUSE, from the configuration side, for ALL orders of setter calls: whatever sequence of setters is applied to a default
    builder, if its last with_init_solutions call carried `seeds`, every context handed to with_context owns a freshly constructed
@@ -375,7 +394,7 @@ Theorem C08_config_run_result_best :
   forall (c : config ind) (clock : list (bool * Z)) (created : list ind) (gens : list generation) (r : list ind),
   start_state (snd (cfg_context c)) ->
   evolve cmp dedup pre post c clock created gens = OResult r ->
-  forall x, In x (init_offered c clock created) \/ (exists g, In g gens /\ In x (gen_offspring g)) ->
+  forall x, In x (init_offered pre c clock created) \/ (exists g, In g gens /\ In x (gen_offspring g)) ->
   exists b, hd_error r = Some b /\ cmp b x <> Gt.
 Proof. exact @evolve_result_best. Qed.
 
